@@ -226,7 +226,12 @@ class Analysis:
             nonlocal ret
             ret = t if ret is None else join(ret, t)
         for s in stmts:
-            if isinstance(s, (ast.Pass, ast.Raise, ast.Break, ast.Continue)):
+            if isinstance(s, (ast.Pass, ast.Break, ast.Continue)):
+                continue
+            if isinstance(s, ast.Raise):
+                for part in (s.exc, s.cause):          # what a raise evaluates is evaluated (calls may keep things)
+                    if part is not None:
+                        self.E(part, env)
                 continue
             if isinstance(s, ast.Expr):
                 self.E(s.value, env)
@@ -296,6 +301,7 @@ class Analysis:
     def bind(self, tgt, t, env, value):
         if isinstance(tgt, ast.Name):
             env[tgt.id] = t
+            self.byteslike = self.byteslike - {tgt.id}       # rebound: no longer known to be a bytes-like object
             if value is not None and isinstance(value, ast.Subscript) and isinstance(value.slice, ast.Slice) \
                     and self.is_byteslike(value.value, env):
                 self.byteslike = self.byteslike | {tgt.id}
